@@ -17,7 +17,7 @@ RULE = ('2-3 processes on one dir or file archive, each performing one operation
         '(_lsdir/_hasinput/_lookup/exists; file: open for reading) of a reader is a scheduling point; schedules: seeded random, plus writer-first / reader-first / '
         'alternating; scenarios writer||writer (distinct keys), writer||reader, overwrite||reader, delete||reader, writer||opener; thorough adds system-call-level '
         'reader gates (monitor only); sqlite: free-running writers and readers, monitor only; non-trivial = schedule with at least one context switch')
-NSCHED = {'quick': 160, 'thorough': 2400}
+NSCHED = {'quick': 256, 'thorough': 3072}
 KEYS = ['a', 'b', 'k1', 7, 'p-q']
 VALS = [1, 'v', (2, 3), None, 2.5]
 SCEN = ['ww', 'ww', 'wr-other', 'wr-other', 'wr-list', 'wr-list', 'wr-list', 'over-r', 'over-list', 'del-r', 'del-list', 'www', 'f-wr', 'f-wo', 'f-wo', 'f-wr']
@@ -47,6 +47,9 @@ def gen(tier, idx):
     elif sc == 'f-wo': procs = [('writer', ['setitem', absent[0], nv()]), ('writer', ['open', False])]
     if sc == 'f-wr' and procs[1][1][0] in ('asdict', 'len'): procs[1] = ('reader', [procs[1][1][0]])
     policy = r.choice(['random', 'random', 'random', 'first', 'second', 'alternate', 'after-rename', 'after-rename'])
+    if sc in ('f-wr', 'wr-other', 'over-r', 'del-r'):
+        # the reader takes one step: put it at every position of the writer's run in turn (exhaustive for these scenarios)
+        policy = 'pos:%d' % ((idx // len(SCEN)) % 16)
     return dict(cfg=cfg, scen=sc, prior=prior, procs=procs, policy=policy, seed=r.randrange(10 ** 9), fine=False)
 
 
@@ -110,6 +113,10 @@ def run_schedule(case):
                 renamed = any(e[0] == 0 and e[1] == 'rename' for e in sched)
                 others = [j for j in live if j != 0]
                 i = 0 if (0 in live and not renamed) or not others else others[0]
+            elif case['policy'].startswith('pos:'):
+                kpos = int(case['policy'][4:]); done0 = len([e for e in sched if e[0] == 0])
+                others = [j for j in live if j != 0]
+                i = 0 if (0 in live and done0 < kpos) or not others else others[0]
             elif case['policy'] == 'first': i = live[0]
             elif case['policy'] == 'second': i = live[-1]
             else: i = [j for j in live if j != last][0] if len(live) > 1 and last in live else live[0]
@@ -221,7 +228,7 @@ def explore(prop, tier):
     viols = []
     tags = collections.Counter(); nontriv = 0
     for tr in trs:
-        tags['scen:' + tr['case']['scen']] += 1; tags['policy:' + tr['case']['policy']] += 1
+        tags['scen:' + tr['case']['scen']] += 1; tags['policy:' + tr['case']['policy'].split(':')[0]] += 1
         if any(a[0] != b[0] for a, b in zip(tr['sched'], tr['sched'][1:])): nontriv += 1
         tags['steps'] += len(tr['sched'])
         for v in monitor(tr): viols.append(dict(v, case=tr['case'], schedule=[s[0] for s in tr['sched']]))
